@@ -145,20 +145,51 @@ pub proof fn lemma_merge_step_cover(pre: Seq<Extent>, e: Extent, om: Seq<Extent>
     ensures forall|b: int| covered(pre.push(e), b) ==> covered(m + optseq(p), b),
 {
     let old_m = om + optseq(op); let new_m = m + optseq(p); let post = pre.push(e);
+    let nl = new_m.len() as int;
+    // shape of the new list, case by case of merge_step
+    assert(p is Some);
+    assert(new_m[nl - 1] == p->Some_0);
+    assert forall|j: int| 0 <= j < om.len() implies new_m[j] == om[j] && old_m[j] == om[j] by {
+        if op is Some && e.start != op->Some_0.end + 1 { assert(m == om.push(op->Some_0)); assert(m[j] == om[j]); }
+    }
     assert forall|b: int| covered(post, b) implies covered(new_m, b) by {
         let i = choose|i: int| 0 <= i < post.len() && inx(#[trigger] post[i], b);
         if i < pre.len() {
             assert(pre[i] == post[i]);
+            assert(inx(pre[i], b));
             assert(covered(pre, b));
+            assert(covered(old_m, b));
             let j = choose|j: int| 0 <= j < old_m.len() && inx(#[trigger] old_m[j], b);
-            if j < om.len() { assert(new_m[j] == old_m[j]); }
-            else {
-                assert(op is Some && old_m[j] == op->Some_0);
-                assert(inx(new_m[new_m.len() - 1], b) || inx(new_m[new_m.len() - 2], b));
+            if j < om.len() {
+                assert(new_m[j] == old_m[j]);
+                assert(inx(new_m[j], b));
+            } else {
+                // b lies in the previous pending extent q
+                assert(op is Some);
+                let q = op->Some_0;
+                assert(old_m[j] == q);
+                if e.start == q.end + 1 {
+                    // merged: the pending extent now spans [q.start, e.end)
+                    assert(p->Some_0.start == q.start && p->Some_0.end == e.end);
+                    assert(q.end <= e.end);
+                    assert(inx(new_m[nl - 1], b));
+                } else {
+                    // q was pushed onto `m`
+                    assert(m == om.push(q));
+                    assert(new_m[om.len() as int] == q);
+                    assert(inx(new_m[om.len() as int], b));
+                }
             }
         } else {
             assert(post[i] == e);
-            assert(inx(new_m[new_m.len() - 1], b));
+            if op is Some && e.start == op->Some_0.end + 1 {
+                assert(p->Some_0.end == e.end && p->Some_0.start == op->Some_0.start);
+                assert(op->Some_0.start <= op->Some_0.end);
+                assert(inx(new_m[nl - 1], b));
+            } else {
+                assert(p == Some(e));
+                assert(inx(new_m[nl - 1], b));
+            }
         }
     }
 }
